@@ -16,7 +16,7 @@ From Coq Require Import ZArith List Bool.
 From Low Require Import Lib.BitSeq Lib.Bytes Model.Pbcmpl Model.LegacyPbcmpl Spec.PbcmplSpec
   Proofs.PbcmplIO Proofs.PbcmplHeader Proofs.PbcmplProofs Proofs.PbcmplMarshal
   Proofs.PbcmplFrames Proofs.PbcmplStream Proofs.PbcmplHistory Proofs.PbcmplLegacy.
-From Low Require Import Lib.Val Run.PbcmplOps Model.PbcmplEncErr Model.PbcmplWalk Spec.PbcmplWalkSpec Proofs.PbcmplWalk Run.PbcmplWalkOps Proofs.PbcmplOpsC07.
+From Low Require Import Lib.Val Run.PbcmplOps Model.PbcmplEncErr Model.PbcmplWalk Spec.PbcmplWalkSpec Proofs.PbcmplWalk Run.PbcmplWalkOps Proofs.PbcmplOpsC07 Run.PbcmplSessionOps Proofs.PbcmplSessions.
 Import ListNotations.
 Open Scope Z_scope.
 
@@ -296,6 +296,24 @@ Theorem C07_marshal_encode_error : forall (Msg W : Type) (enc : Msg -> option (l
   enc m = None -> Marshal_opt enc write w m ver = Some (0, encode_errclass, w).
 Proof. exact @Marshal_encode_error. Qed.
 Print Assumptions C07_marshal_encode_error.
+
+(** pbcmpl.Unmarshal/bufio: through a *bufio.Reader (transparent for the bytes, terminal
+    error delivered alone) the calls report what the specification says *)
+Theorem C07_op_bufio : forall kind s pat t,
+  bytes_ok s -> all_pos pat = true -> zlen s < 2 ^ 63 ->
+  v_bufstream_model kind (chunks_of pat s, t) = v_bufstream_spec kind EEOF s t.
+Proof. exact v_bufstream_model_spec. Qed.
+Print Assumptions C07_op_bufio.
+
+(** histories (pbcmpl.Marshal/session): every Marshal call of a session reports what the
+    specification says, whatever was marshalled before it (the model carries no state) *)
+Theorem C07_op_marshal_session : forall kind (cs : list ((option (list Z) * list Z) * list (Z * bool))),
+  Forall (fun c => zlen (k_enc kind (snd (fst c))) < 2 ^ 63 - 32
+                   /\ script_ok (snd c) [32; zlen (k_enc kind (snd (fst c)))] = true) cs ->
+  map (fun c => v_marshal_model kind (snd c) (fst c)) cs
+    = map (fun c => v_marshal_spec kind (snd c) (fst c)) cs.
+Proof. exact marshal_session_spec. Qed.
+Print Assumptions C07_op_marshal_session.
 
 (** the defect repaired by /repo commit 815cf27: against the pre-fix Unmarshal
     (Model/LegacyPbcmpl.v: make([]byte, int64(BodySize)) then io.ReadFull) the "never
